@@ -917,6 +917,56 @@ def load_schema_ordered(
     return outer_schema
 
 
+def _embed_external_definitions(schema, named_schemas, defined=None):
+    """Returns a copy of a parsed schema in which the first reference to every
+    named type that is not defined inside the schema itself is replaced by its
+    definition from named_schemas, so that the result is self-contained.
+
+    Needed for schemas whose named types were parsed separately against a
+    shared named_schemas dictionary and are only referred to by name."""
+    if defined is None:
+        defined = set()
+
+    if isinstance(schema, list):
+        return [
+            _embed_external_definitions(s, named_schemas, defined) for s in schema
+        ]
+    elif not isinstance(schema, dict):
+        if schema in PRIMITIVES or schema in defined or schema not in named_schemas:
+            return schema
+        return _embed_external_definitions(
+            named_schemas[schema], named_schemas, defined
+        )
+
+    embedded = {
+        key: value
+        for key, value in schema.items()
+        if key not in ("__fastavro_parsed", "__named_schemas")
+    }
+    schema_type = schema["type"]
+    if schema_type in ("record", "error", "enum", "fixed"):
+        defined.add(schema["name"])
+    if schema_type == "array":
+        embedded["items"] = _embed_external_definitions(
+            schema["items"], named_schemas, defined
+        )
+    elif schema_type == "map":
+        embedded["values"] = _embed_external_definitions(
+            schema["values"], named_schemas, defined
+        )
+    elif schema_type == "record" or schema_type == "error":
+        embedded["fields"] = [
+            {
+                **field,
+                "type": _embed_external_definitions(
+                    field["type"], named_schemas, defined
+                ),
+            }
+            for field in schema["fields"]
+        ]
+    return embedded
+
+
 def to_parsing_canonical_form(schema: Schema) -> str:
     """Returns a string represening the parsing canonical form of the schema.
 
@@ -930,7 +980,12 @@ def to_parsing_canonical_form(schema: Schema) -> str:
 
     """
     fo = StringIO()
-    _to_parsing_canonical_form(parse_schema(schema), fo)
+    parsed_schema = parse_schema(schema)
+    if isinstance(parsed_schema, dict) and "__named_schemas" in parsed_schema:
+        parsed_schema = _embed_external_definitions(
+            parsed_schema, parsed_schema["__named_schemas"]
+        )
+    _to_parsing_canonical_form(parsed_schema, fo)
     return fo.getvalue()
 
 
